@@ -242,6 +242,45 @@ def rule_r6(rep, program):
     return r
 
 
+def rule_r7(rep, program):
+    r = rep.rule("R7", "every site that builds a ChainState dependency table gives each variable its own set (a shared set makes every assignment invalidate every cached value)", floor=2)
+    k = program.cls("ChainState")
+    sites = []
+    for f in k.methods.values():
+        for n in ast.walk(f.node):
+            if isinstance(n, ast.Assign) and len(n.targets) == 1:
+                t = n.targets[0]
+                tn = None
+                if isinstance(t, ast.Subscript) and norm(t.value) == "self.__dict__" and isinstance(t.slice, ast.Constant) and t.slice.value == "_dependencies":
+                    tn = "self._dependencies"
+                elif isinstance(t, ast.Name) and t.id == "_dependencies":
+                    tn = "_dependencies"
+                if tn:
+                    sites.append((f, n, n.value))
+    if not sites:
+        raise AnalysisError("ChainState: no construction site of the dependency table found")
+    for f, n, v in sites:
+        kind = None
+        if isinstance(v, ast.Name) or isinstance(v, ast.Subscript) or isinstance(v, ast.Attribute):
+            kind = "forwarded"  # an existing table (parameter, pickled table)
+        elif isinstance(v, ast.DictComp):
+            val = v.value
+            fresh = isinstance(val, ast.Call) and norm(val.func) == "set" or isinstance(val, ast.Set) or isinstance(val, ast.SetComp)
+            kind = "fresh-per-key" if fresh else "comprehension-sharing"
+        elif isinstance(v, ast.Call) and norm(v.func) in ("defaultdict", "collections.defaultdict") and v.args and norm(v.args[0]) == "set":
+            kind = "fresh-per-key"
+        elif isinstance(v, ast.Call) and norm(v.func) == "dict.fromkeys":
+            kind = "fromkeys-shared" if len(v.args) > 1 else "fromkeys-none"
+        elif isinstance(v, ast.IfExp):
+            kind = "forwarded"
+        else:
+            raise AnalysisError(f"{f.qualname}: dependency table built by an unrecognised expression {norm(v)[:50]}")
+        r.inst({"site": f.qualname, "expr": norm(v)[:60], "kind": kind})
+        if kind in ("fromkeys-shared", "comprehension-sharing", "fromkeys-none"):
+            r.violate(PROP, f"{f.qualname}:dependencies-shared-set:{norm(v)[:40]}", f"{f.qualname} builds the dependency table as `{norm(v)[:60]}`: all variables share one set object, so every cached key is registered under every variable and assigning the momentum (or dir) invalidates the position-dependent values (gradients are re-evaluated on every kick: 2n instead of n + 1 per trajectory)", node=n, file=f.file)
+    return r
+
+
 def run(rep, program: Program, tier: str) -> None:
     rep.explanation = (
         "Structural necessary conditions of the memoisation contract: declared-vs-read "
@@ -258,3 +297,4 @@ def run(rep, program: Program, tier: str) -> None:
     rule_r4(rep, program)
     rule_r5(rep, program, se)
     rule_r6(rep, program)
+    rule_r7(rep, program)
